@@ -120,7 +120,10 @@ ScCompactDec(s, maxLen, at) ==
 ScLenDec(s, at) ==
   LET r == ScCompactDec(s, 4, "len")
   IN IF ~r.ok THEN r
-     ELSE IF ~BnFitsInt(r.v) \/ BnToInt(r.v) > Len(s) - r.n THEN ScFailAt(at, "length")
+     \* for why = "length" the field n of the failure carries the DECLARED length (-1: >= 2^31),
+     \* so that generators can keep absurd declared lengths away from code that allocates them
+     ELSE IF ~BnFitsInt(r.v) THEN [ScFailAt(at, "length") EXCEPT !.n = -1]
+     ELSE IF BnToInt(r.v) > Len(s) - r.n THEN [ScFailAt(at, "length") EXCEPT !.n = BnToInt(r.v)]
      ELSE ScOk(BnToInt(r.v), r.n)
 
 (* every encoding of the number d in a LONGER mode than the canonical one   *)
@@ -210,8 +213,8 @@ ScDec(t, s) ==
          ELSE LET r == ScDec(ScVariant(t, s[1]).t, Tail(s))
               IN IF ~r.ok THEN r ELSE ScOk([i |-> s[1], v |-> r.v], 1 + r.n)
     [] t.k = "arr" -> ScDecSeq(t.t, s, t.n)
-    [] t.k = "slice" ->
-         LET l == ScLenDec(s, t.k) IN
+    [] t.k = "slice" ->   \* Vec<u8> IS a byte string (and is decoded as one)
+         LET l == ScLenDec(s, IF t.t.k = "u" /\ t.t.n = 1 THEN "bytes" ELSE "slice") IN
          IF ~l.ok THEN l
          ELSE LET r == ScDecSeq(t.t, ScDrop(s, l.n), l.v) IN IF ~r.ok THEN r ELSE ScOk(r.v, l.n + r.n)
     [] t.k = "map" ->
